@@ -20,7 +20,7 @@ def solve(case):
         return None, r["err"]
     w, obj, stop = r["out"]
     if not stop <= case.knobs["tol"]:
-        return None, "not-converged"
+        return None, f"not-converged:{float(np.max(stop))!r}"
     return np.asarray(w, float), None
 
 
@@ -29,7 +29,16 @@ def check(rep, name, case, w_ref, case2, back, tol=2e-5):
     w2, e2 = solve(case2)
     rep.count(f"{name}:{case.solver}", w2 is None, (name, id(case)))
     if w2 is None:
-        if e2 != "not-converged":
+        if e2.startswith("not-converged"):
+            # the original problem was solved to 1e-10 with the same (generous) budget: a symmetric copy of it that
+            # stays far from convergence is not "the same problem" for the solver
+            stop2 = float(e2.split(":", 1)[1])
+            if not stop2 <= 1e-5:
+                rep.violate(f"{case.solver} solves a problem but not its transform ({name}) with the same budget "
+                            f"(stopping value {stop2:.2e} against tol {case.knobs['tol']:.0e})",
+                            dict(case.signature(site=f"{case.solver}.solve"), kind="symmetry-unsolved", transform=name),
+                            case=case2.describe(), oracle=dict(original=w_ref.tolist()))
+        else:
             rep.violate(f"{case.solver} fails on the transformed problem ({name}): {e2[:100]}",
                         dict(case.signature(site=f"{case.solver}.solve"), kind="raises", transform=name), case=case2.describe())
         return
@@ -50,8 +59,8 @@ def run(ctx, rep):
                 "arbitrary index lists) and MultiTaskBCD; transformations: feature permutation (with weights / group "
                 "membership), group permutation, task permutation, sample permutation, stacking k times, scaling (y, alpha) "
                 "by c, rescaling a feature with its weight; one transformed solve = one case")
-    for _ in range(ctx.n(36, 400)):
-        fam = rng.choice(["sep", "sep", "group", "mtl"])
+    for _ in range(ctx.n(48, 500)):
+        fam = rng.choice(["sep", "sep", "group", "group", "group", "mtl"])
         n, p = rng.randrange(8, 16), rng.randrange(2, 8)
         X = gen_matrix(rng, n, p, "gauss")
         fi = rng.random() < 0.5
@@ -71,9 +80,14 @@ def run(ctx, rep):
             solver = "GroupBCD"
             groups, gp, gi = group_layout(rng, p)
             y = np.array([rng.gauss(0, 1) for _ in range(n)])
-            case = bbox.BBCase(solver, "group", Dfit("quadratic"), Blk("wgl2", rng.choice([0.02, 0.1]), positive=rng.random() < 0.3),
+            if rng.random() < 0.4:       # all-zero / duplicated columns inside groups, in any storage position
+                X = gen_matrix(rng, n, p, rng.choice(["degenerate", "sparse"]))
+            gk = rng.choice(["wgl2", "wgl2", "wl1gl2"])
+            gpen = Blk(gk, rng.choice([0.02, 0.1]), positive=gk == "wgl2" and rng.random() < 0.4)
+            case = bbox.BBCase(solver, "group", Dfit("quadratic"), gpen,
                                X, y, dict(tol=tol, fit_intercept=fi, max_iter=500, max_epochs=5000), groups=groups,
-                               wgs=np.array([rng.choice([0.5, 1.0, 2.0]) for _ in groups]))
+                               wgs=np.array([rng.choice([0.5, 1.0, 2.0]) for _ in groups]),
+                               wfs=np.array([rng.choice([0.0, 0.5, 1.0, 2.0]) for _ in range(p)]) if gk == "wl1gl2" else None)
         else:
             solver = "MultiTaskBCD"
             T = rng.randrange(2, 4)
@@ -82,6 +96,27 @@ def run(ctx, rep):
                                dict(tol=tol, fit_intercept=fi, max_iter=300, max_epochs=20000))
         w_ref, e = solve(case)
         if w_ref is None:
+            if fam == "group" and e.startswith("not-converged") and float(e.split(":", 1)[1]) > 1e-5:
+                # the problem as given is not solved within the budget: then no storage-level rearrangement of it
+                # may be solved either (same problem, same budget)
+                alts = []
+                c9 = copy.copy(case)
+                c9.groups = [list(reversed(g)) for g in case.groups]
+                alts.append(("reorder-within-groups", c9))
+                gpm = list(range(len(case.groups)))
+                rng.shuffle(gpm)
+                c5 = copy.copy(case)
+                c5.groups = [case.groups[g] for g in gpm]
+                c5.wgs = case.wgs[gpm]
+                alts.append(("permute-groups", c5))
+                for name, alt in alts:
+                    w_alt, e_alt = solve(alt)
+                    rep.count(f"{name}:unsolved-original", False, (name, id(case)))
+                    if w_alt is not None:
+                        rep.violate(f"GroupBCD does not solve a problem within a generous budget (stopping value "
+                                    f"{float(e.split(':', 1)[1]):.2e}) but solves its rearrangement ({name}) to 1e-10",
+                                    dict(case.signature(site="GroupBCD.solve"), kind="symmetry-unsolved", transform=name),
+                                    case=case.describe(), oracle=dict(rearranged_groups=alt.groups, solution=w_alt.tolist()))
             continue
         nint = 1 if fi else 0
         # ---- feature permutation (weights / group membership follow)
@@ -95,6 +130,8 @@ def run(ctx, rep):
         if fam == "group":
             inv = np.argsort(perm)
             c2.groups = [[int(inv[j]) for j in g] for g in case.groups]
+            if case.wfs is not None:
+                c2.wfs = np.asarray(case.wfs)[perm]
 
         def back_feat(w2, perm=perm):
             out = np.array(w2, copy=True)
@@ -123,6 +160,10 @@ def run(ctx, rep):
             c5.groups = [case.groups[g] for g in gpm]
             c5.wgs = case.wgs[gpm]
             check(rep, "permute-groups", case, w_ref, c5, lambda w2: w2)
+            # the order in which a group lists its features is storage, not problem data
+            c9 = copy.copy(case)
+            c9.groups = [list(reversed(g)) if rng.random() < 0.7 else rng.sample(g, len(g)) for g in case.groups]
+            check(rep, "reorder-within-groups", case, w_ref, c9, lambda w2: w2)
         if fam == "mtl":
             tp = np.array(rng.sample(range(case.y.shape[1]), case.y.shape[1]))
             c6 = copy.copy(case)
